@@ -123,6 +123,16 @@ func (fv *FV) call(e *Env, x *ast.CallExpr) Value {
 	if e.dead {
 		return fv.freshValue(rt, "dead")
 	}
+	if fn != nil && fv.u != nil && fv.u.C != nil {
+		for _, pc := range fv.u.C.PreCalls {
+			if !pc.Re.MatchString(fn.FullName()) {
+				continue
+			}
+			t := fv.specTermO(e, pc.Cl, &specCtx{old: fv.entry, preAlloc: fv.entry.alloc, lenient: true})
+			fv.obligeNamed(e, "precall", fmt.Sprintf("precall:%s#%d", pc.Cl.Label, fv.siteOrd("precall"+pc.Cl.Label)), x,
+				fmt.Sprintf("call of %s is made only when %q", fn.FullName(), pc.Cl.Text), t)
+		}
+	}
 	if fn == nil {
 		// call of a function value
 		fvT := fv.expr(e, x.Fun)
@@ -239,6 +249,14 @@ func (fv *FV) opaqueCall(e *Env, x *ast.CallExpr, fn *types.Func, recv *Value, a
 		name = fn.FullName()
 	}
 	fv.opaqueUsed[name] = true
+	savedKeep := fv.keepCounters
+	fv.keepCounters = nil
+	if fn == nil || !fv.eng.inModule(fn) || isIfaceMethod(fn) {
+		fv.keepCounters = map[string]bool{}
+	} else if len(fv.eng.bumpRe) > 0 {
+		fv.keepCounters = fv.eng.bumpSet(fn) // in-module callee without contract: static call-graph analysis of its source
+	}
+	defer func() { fv.keepCounters = savedKeep }()
 	if havocAll {
 		fv.note("callee without contract: %s", name)
 		fv.havocAll(e)
@@ -280,6 +298,11 @@ func (fv *FV) opaqueCall(e *Env, x *ast.CallExpr, fn *types.Func, recv *Value, a
 	fv.nonNilResults(fn, v)
 	fv.assumeAllocated(e, v)
 	return v
+}
+
+func isIfaceMethod(fn *types.Func) bool {
+	sig, ok := fn.Type().(*types.Signature)
+	return ok && sig.Recv() != nil && types.IsInterface(sig.Recv().Type())
 }
 
 func lastSeg(s string) string {
@@ -799,7 +822,14 @@ func (fv *FV) applyContract(e *Env, x *ast.CallExpr, u *FuncUnit, recv *Value, a
 		}
 		fv.havocAlloc(e)
 	default:
+		// no modifies clause: everything may change, except the ghost call
+		// counters the callee provably cannot bump (static call-graph analysis)
+		savedKeep := fv.keepCounters
+		if len(fv.eng.bumpRe) > 0 {
+			fv.keepCounters = fv.eng.bumpSet(u.Fn)
+		}
 		fv.havocAll(e)
+		fv.keepCounters = savedKeep
 	}
 	// results
 	var results []Value
